@@ -505,6 +505,42 @@ def run(ck):
                             break
                 except Exception as e:
                     ck.fail("raises:parcel:stream", "reading the %s loaded from the stream raised %r" % (nm, e), inp)
+        # ---- the directory container (savedir / loaddir): several objects saving into one directory in turns, and a resumed series ------
+        for rnd3 in range(ck.n(2, 8)):
+            dname = os.path.join(tmp, "dir%d" % rnd3)
+            tax = TimeAxis(0.0, 6, 1.0)
+            mkf = lambda v: DFunction(tax, numpy.arange(6) * 1.0 + 100.0 * v)
+            nobj = rng.randint(2, 3)
+            objs = [mkf(k + 1) for k in range(nobj)]
+            turns = [rng.randrange(nobj) for _ in range(rng.randint(3, 6))]
+            if rnd3 == 0:
+                turns = [0, 1, 0]
+            saved = []                                  # values saved, in order
+            inp = {"scenario": "objects saving into one directory in turns (savedir with automatic tags), then loaddir", "turns": turns}
+            ck.case(("savedir", tuple(turns), rnd3), nontrivial=True, kind="parcel", cls="savedir", save_ctx="none", load_ctx="none")
+            try:
+                with quiet():
+                    for step_, who in enumerate(turns):
+                        objs[who].data = numpy.array(objs[who].data) + 0.25      # the object moved on since it was saved last
+                        objs[who].savedir(dname)
+                        saved.append(numpy.array(objs[who].data).copy())
+                    if rnd3 % 2 == 1:
+                        # a resumed series: the latest snapshot is taken from the directory, changed and saved back
+                        got0 = objs[0].loaddir(dname)
+                        last = got0[max(got0)]
+                        last.data = numpy.array(last.data) + 7.0
+                        last.savedir(dname)
+                        saved.append(numpy.array(last.data).copy())
+                        inp["resumed_from_loaded_snapshot"] = True
+                    got = objs[0].loaddir(dname)
+            except Exception as e:
+                ck.fail("raises:parcel:savedir", "savedir / loaddir raised %r" % (e,), inp)
+                continue
+            vals = [numpy.array(got[k].data) for k in sorted(got)]
+            if len(vals) != len(saved):
+                ck.fail("values:parcel:savedir", "loaddir returns %d objects, %d were saved" % (len(vals), len(saved)), inp, len(vals), len(saved))
+            elif any(numpy.abs(a - b).max() != 0.0 for a, b in zip(vals, saved)):
+                ck.fail("values:parcel:savedir", "an object returned by loaddir carries other data than the one saved under that tag", inp)
     finally:
         shutil.rmtree(tmp, ignore_errors=True)
 
